@@ -51,7 +51,7 @@ def canaries(obligations, qualname):
 
 def _gen(i):
     spec = _SPECS[i]
-    rep = {"file": spec.file, "qualname": spec.qualname, "variant": getattr(spec, "variant", None), "sha256": None, "paths": 0, "obligations": [], "canaries": [], "error": None}
+    rep = {"file": spec.file, "qualname": spec.qualname, "variant": getattr(spec, "variant", None), "sha256": None, "paths": 0, "obligations": [], "canaries": [], "error": None, "prefer": getattr(spec, "prefer_solver", None)}
     t0 = time.time()
     try:
         fdef, lines, sha = locate.find(spec.file, spec.qualname)
@@ -95,7 +95,7 @@ def verify(specs, z3_ms=10000, cvc5_ms=20000, both=False, extra_obligations=None
             if o["trivial"]:
                 o["result"] = {"status": "proved", "by": "simplifier", "backends": [], "model": None}
             else:
-                tasks.append((o, (o["name"], o["smt2"], z3_ms, cvc5_ms, both)))
+                tasks.append((o, (o["name"], o["smt2"], z3_ms, cvc5_ms, both, r.get("prefer"))))
         for o in r["canaries"]:
             tasks.append((o, (o["name"], o["smt2"], 3000, 3000, False)))
     results = solve.run_tasks([t for _, t in tasks])
